@@ -283,6 +283,7 @@ impl<V> Memory<V>
 where
     V: Value,
 {
+//@ source lib/memory/paged.rs
 //@ fn impl<V> Memory<V> :: fn store
 //@ attr #[verifier::spinoff_prover]
 //@ spec
